@@ -15,12 +15,26 @@ fn frame(kind: &str, tid: u16, unit: u8, pdu: &[u8]) -> Vec<u8> {
     }
 }
 
+fn emit(out: &mut Out, line: &str) {
+    if out.monitored {
+        monitor_line(out, line);
+    } else {
+        out.case(line);
+    }
+}
+
 fn err_tok(rng: &mut Rng) -> String {
-    match rng.below(6) {
+    // every kind, including those the library itself produces (InvalidData, InvalidInput, …):
+    // a kind must never be taken as proof of where an error came from
+    match rng.below(12) {
         0 => "xbp".into(),
         1 => "xnc".into(),
         2 => "xto".into(),
         3 => "xot".into(),
+        4 => "xid".into(),
+        5 => "xii".into(),
+        6 => "xue".into(),
+        7 => "xwz".into(),
         _ => format!("xk{}", rng.below(crate::wire::INJECTED.len())),
     }
 }
@@ -222,7 +236,7 @@ pub fn gen_cli_histories(out: &mut Out, rng: &mut Rng, n: usize) {
                 }
             }
         }
-        out.case(&line);
+        emit(out, &line);
     }
 }
 
@@ -298,7 +312,7 @@ pub fn gen_srv_histories(out: &mut Out, rng: &mut Rng, n: usize) {
         let w = write_script(rng);
         let ty = if rng.chance(1, 8) { " svcty=req" } else { "" };
         let svc_tok = if svc.is_empty() { "D".to_string() } else { svc.iter().map(Svc::tok).collect::<Vec<_>>().join(",") };
-        out.case(&format!("srv {kind} svc={svc_tok}{ty}{w} r={}", if evs.is_empty() { "-".to_string() } else { evs.join(",") }));
+        emit(out, &format!("srv {kind} svc={svc_tok}{ty}{w} r={}", if evs.is_empty() { "-".to_string() } else { evs.join(",") }));
     }
 }
 
@@ -396,6 +410,6 @@ pub fn gen_stream_histories(out: &mut Out, rng: &mut Rng, n: usize) {
             }
             _ => {}
         }
-        out.case(&format!("stream {codec} {}", evs.join(",")));
+        emit(out, &format!("stream {codec} {}", evs.join(",")));
     }
 }
